@@ -212,6 +212,9 @@ class RefLexer:
                     reset = True
                 elif kind == 'simple':
                     res = 1
+                elif kind in ('autoinf', 'autofal'):
+                    # `=>` / `=?` rules with the same right-hand side text `|lexer| lexer.return_(lv::auto())`: token 9000 / error 9001
+                    res = 1 if kind == 'autoinf' else 2
                 else:
                     counter += 1
                     pk = str(chars[endp]) if endp < n else '-'
@@ -232,9 +235,9 @@ class RefLexer:
                 if res == 0:
                     continue
                 if res == 1:
-                    item = 'ok %s %d %s' % (show_loc(locs[start1]), idx, show_loc(locs[endp]))
+                    item = 'ok %s %d %s' % (show_loc(locs[start1]), 9000 if kind == 'autoinf' else idx, show_loc(locs[endp]))
                 else:
-                    item = 'err %s custom %d' % (show_loc(locs[start1]), idx + 100)
+                    item = 'err %s custom %d' % (show_loc(locs[start1]), 9001 if kind == 'autofal' else idx + 100)
                 start = endp
                 break
             saved = '0' if n <= 64 else '-'   # no saved match survives a call
